@@ -6,7 +6,7 @@ import re
 
 from ..program import AnalysisError, walk_local, dotted
 from ..analysis import Spec, src, const_value
-from ..rules import (GWF, EXC, mpt, need_func, stores_to, is_const, kw,
+from ..rules import (template_sites, GWF, EXC, mpt, need_func, stores_to, is_const, kw,
                      parent_map, raise_class, substitute_locals)
 from . import common, c18
 from .c12 import _first_exit
@@ -227,22 +227,23 @@ def parent_id_round_trip(prog, an, rep):
 
 def name_builders(prog, an, rep):
     R = 'C19.SIB.name-builders'
-    sites = [(f, call) for f, call, fmt in c18._format_sites(prog, an)
+    sites = [(f, call, holes)
+             for f, call, fmt, holes in c18._format_sites(prog, an)
              if fmt == 'w/{}/{}']
     want = {I + '.get_integration_branches',
             I + '.create_integration_branches',
             GWF + '.handle_declined_pull_request'}
-    got = {f.qname for f, _ in sites}
+    got = {f.qname for f, _, _ in sites}
     rep.evaluated()
     rep.check(got == want, R, 'the three w/ name builders', None,
               'w/ names are built in %s' % sorted(got))
-    for f, call in sites:
+    for f, call, holes in sites:
         rep.evaluated()
-        ok = len(call.args) == 2 and src(call.args[0]).endswith('.version') \
-            and c18._is_source(f, call.args[1])
+        ok = len(holes) == 2 and src(holes[0]).endswith('.version') \
+            and c18._is_source(f, holes[1])
         rep.check(ok, R, '%s: w/<target version>/<source branch>' % f.qname,
                   f.where(call), 'fields are %s' %
-                  [src(a) for a in call.args])
+                  [src(a) for a in holes])
 
 
 def redirects(prog, an, rep):
@@ -294,8 +295,10 @@ def redirects(prog, an, rep):
     qt = [n for n in ch.nodes.values() if n.kind in ('stmt', 'return') and
           'handle_merge_queues' in src(n.ast)]
     rep.floor('C19 queue redirect in handle_commit', len(qt), 1)
-    isq = an.branch_nodes(h, lambda e: 'isinstance(b, QueueBranch)' in
-                          src(e), True)
+    isq = an.branch_nodes(h, lambda e: any(
+        isinstance(x, ast.Call) and src(x.func) == 'isinstance' and
+        len(x.args) == 2 and src(x.args[1]) == 'QueueBranch'
+        for x in ast.walk(e)), True)
     for n in qt:
         ok, path = ch.must_pass(isq, n.id)
         ok2, _ = ch.must_pass(uq, n.id)
@@ -307,21 +310,59 @@ def redirects(prog, an, rep):
                   path=ch.describe_path(path))
     pj = [x for x in prog.calls_in(h)
           if prog.callee(h, x) == ('class', 'bert_e.job.PullRequestJob')]
-    prv = [v for _, v in stores_to(h, 'pr') if v is not None]
-    ok = len(pj) == 1 and 'get_pull_request(int(pr.id))' in src(pj[0]) and \
-        len(prv) == 1 and src(prv[0]) == 'min(prs, key=lambda pr: pr.id)'
+    m = re.search(r'get_pull_request\(int\((\w+)\.id\)\)',
+                  src(pj[0])) if len(pj) == 1 else None
+    prvar = m.group(1) if m else None
+    prv = [v for _, v in stores_to(h, prvar) if v is not None] if prvar \
+        else []
+    listvar = None
+    if len(prv) == 1 and isinstance(prv[0], ast.Call) and \
+            src(prv[0].func) == 'min' and len(prv[0].args) == 1 and \
+            isinstance(prv[0].args[0], ast.Name):
+        key = kw(prv[0], 'key')
+        if isinstance(key, ast.Lambda) and len(key.args.args) == 1 and \
+                src(key.body) == key.args.args[0].arg + '.id':
+            listvar = prv[0].args[0].id
     rep.evaluated()
-    rep.check(ok, R, h.qname + ': the oldest pull request of the source '
-              'branch is evaluated', h.where(), 'builds %s from %s' % (
-                  [src(x) for x in pj], [src(v) for v in prv]))
-    prs = [v for _, v in stores_to(h, 'prs') if v is not None]
-    ok = len(prs) == 1 and 'get_pull_requests(src_branch=candidates)' in \
-        src(prs[0])
-    cand = [src(v) for _, v in stores_to(h, 'candidates') if v is not None]
-    ok = ok and any('map(get_parent_branch, candidates)' in x for x in cand)
+    rep.check(listvar is not None, R, h.qname + ': the oldest pull request '
+              'of the source branch is evaluated', h.where(),
+              'builds %s from %s' % ([src(x) for x in pj],
+                                     [src(v) for v in prv]))
+    prs = [v for _, v in stores_to(h, listvar) if v is not None] \
+        if listvar else []
+    lookups = [x for v in prs for x in ast.walk(v)
+               if isinstance(x, ast.Call) and
+               isinstance(x.func, ast.Attribute) and
+               x.func.attr == 'get_pull_requests']
+    by = kw(lookups[0], 'src_branch') if len(lookups) == 1 and \
+        len(prs) == 1 else None
+    cand = [v for _, v in stores_to(h, by.id) if v is not None] \
+        if isinstance(by, ast.Name) else []
+    ok = any(_maps(v, 'get_parent_branch', by.id) for v in cand)
     rep.check(ok, R, h.qname + ': pull requests are looked up by the '
               'parent source branch of every candidate', h.where(),
-              'prs = %s, candidates = %s' % ([src(v) for v in prs], cand))
+              'prs = %s, candidates = %s' % ([src(v) for v in prs],
+                                             [src(v) for v in cand]))
+
+
+def _maps(expr, fn, over):
+    """expr is `fn` applied to every element of the name `over`:
+    list(map(fn, over)) / [fn(x) for x in over] (no filter)."""
+    e = expr
+    while isinstance(e, ast.Call) and src(e.func) in ('list', 'tuple') and \
+            len(e.args) == 1:
+        e = e.args[0]
+    if isinstance(e, ast.Call) and src(e.func) == 'map' and \
+            len(e.args) == 2:
+        return src(e.args[0]) == fn and src(e.args[1]) == over
+    if isinstance(e, (ast.ListComp, ast.GeneratorExp)) and \
+            len(e.generators) == 1:
+        g = e.generators[0]
+        return not g.ifs and src(g.iter) == over and \
+            isinstance(e.elt, ast.Call) and src(e.elt.func) == fn and \
+            len(e.elt.args) == 1 and not e.elt.keywords and \
+            src(e.elt.args[0]) == src(g.target)
+    return False
 
 
 def declined_cleanup(prog, an, rep):
